@@ -840,12 +840,6 @@ func (c *cfg) makeCoherent() {
 			}
 		}
 	}
-	// the v flag enables \p{..}; template literal tags etc. have no such coupling
-	if v, ok := c.Supported["regexp-set-notation"]; ok && v {
-		if c.goOptions().UnsupportedJSFeatures.Has(compat.RegexpUnicodePropertyEscapes) {
-			c.Supported["regexp-unicode-property-escapes"] = true
-		}
-	}
 }
 
 // ---------- main ----------
